@@ -45,6 +45,7 @@ class HyWorld:
         self.I, self.W = self.lab.I, self.lab.W
         self.bufs = {"A": self.W.buffer}
         self.nbuf = 0
+        self.W.copy_bytes = True  # buffer-to-buffer copies carry the known words along
 
         def distinct_allocations(d):
             # positions are `base_k + const` with one base atom per allocation: two positions inside DIFFERENT
@@ -57,6 +58,7 @@ class HyWorld:
         self.I.eq_oracle = distinct_allocations
 
         self.epoch = {}
+        self.numeric_views = False
         self._views(self.W.buffer)
 
     # ---------------------------------------------------------------- building
@@ -73,6 +75,20 @@ class HyWorld:
             vals.update(k)
             pos, shape = pol(vals["offset"]), list(I.iterate(vals["shape"]))
             itemsize = I.getattr(vals["dtype"], "itemsize")
+            if self.numeric_views:
+                # JD: the view is an array of the words the abstract memory holds there (C order)
+                from ..peval import SArr
+
+                shape = [int(d) for d in shape]
+                arr = SArr(shape)
+                arr.itemsize = itemsize
+                arr.dt = vals["dtype"]
+                for n_, idx in enumerate(arr.indices()):
+                    key = repr(pos + Poly.const(n_ * itemsize))
+                    # never-written storage of a fresh buffer is zero (no free/reuse happens in these scenarios)
+                    zero = 0.0 if str(I.getattr(vals["dtype"], "name")).startswith("float") else 0
+                    arr.data[idx] = I.mem[key] if key in I.mem else zero
+                return arr
             v = Obj("nplike", {"pos": pos, "buf": b, "epoch": self.epoch[b.name], "shape": tuple(shape), "dtype": vals["dtype"]}, name=f"view@{b.name}+{pos!r}#e{self.epoch[b.name]}")
             st = []
             acc = itemsize
@@ -95,6 +111,23 @@ class HyWorld:
             return v
 
         b.attrs["to_nplike"] = Builtin("buffer.to_nplike", to_nplike)
+        b.attrs["to_nparray"] = b.attrs["to_nplike"]
+
+        def update_from_nplike(*a, **k):
+            vals = dict(zip(("offset", "dest_dtype", "value"), a))
+            vals.update(k)
+            from ..peval import SArr
+
+            v, pos = vals["value"], pol(vals["offset"])
+            I.effects.append(Effect("update_from_nplike", args=(vals["offset"], vals["dest_dtype"], v), kwargs={}, buf=b))
+            if self.numeric_views and isinstance(v, SArr) and v.sym is None:
+                itemsize = I.getattr(vals["dest_dtype"], "itemsize")
+                for n_, x in enumerate(v.flat()):
+                    p_ = pos + Poly.const(n_ * itemsize)
+                    I.mem[repr(p_)] = x
+                    self.W.polys[repr(p_)] = p_
+
+        b.attrs["update_from_nplike"] = Builtin("buffer.update_from_nplike", update_from_nplike)
 
     def buf(self, tag):
         if tag not in self.bufs:
@@ -125,6 +158,9 @@ class HyWorld:
         z["Top"] = self.mkclass("Top", {"t": F, "mid": z["Mid"], "leaf2": z["Leaf"]}, {"_rename": {"leaf2": "second"}})
         z["Holder"] = self.mkclass("Holder", {"k": F, "r": I.call(Ref, [z["Leaf"]], {})})
         z["Wrap"] = self.mkclass("Wrap", {"w": F, "h": z["Holder"]})
+        ArrF = self.lab.array("ArrNFloat64", [None], (0,), F)
+        z["DynLeaf"] = self.mkclass("DynLeaf", {"n": F, "a": ArrF, "b": ArrF})
+        z["DynTop"] = self.mkclass("DynTop", {"t": F, "part": z["DynLeaf"]})
         return z
 
     # ---------------------------------------------------------------- observation
@@ -155,13 +191,32 @@ class HyWorld:
         return out
 
     def mirror(self, h, path):
-        """discrepancies between the dressed tree of `h` and the struct views of its buffer data"""
+        """discrepancies between the dressed tree of `h` and the struct views of its buffer data (pure observation:
+        the effects of the reads are dropped)"""
+        n0 = len(self.I.effects)
+        try:
+            return self._mirror(h, path)
+        finally:
+            del self.I.effects[n0:]
+
+    def _mirror(self, h, path):
         I = self.I
         bad = []
-        xo = h.attrs.get("_xobject")
-        if not isinstance(xo, Obj):
+        kept = h.attrs.get("_xobject")
+        if not isinstance(kept, Obj):
             return [f"{path}: no struct view (_xobject)"]
-        hl = self.loc(xo)
+        hl = self.loc(kept)
+        # the buffer data are what a view made afresh from (buffer, offset) shows; the handle the dressed object keeps
+        # must locate every field where that view does
+        try:
+            xo = I.call(I.getattr(kept.cls, "_from_buffer"), [kept.attrs["_buffer"], kept.attrs["_offset"]], {})
+            for f in kept.cls.attrs["_fields"]:
+                pa = I.call(I.getattr(f, "get_offset"), [kept], {})[1]
+                pb = I.call(I.getattr(f, "get_offset"), [xo], {})[1]
+                if pol(pa) != pol(pb):
+                    return [f"{path}: the struct handle kept by the dressed object locates field {I.getattr(f, 'name')} at {pol(pa)!r}, the buffer data have it at {pol(pb)!r} (stale handle): attributes read other bytes"]
+        except PyExc as e:
+            return [f"{path}: the struct data cannot be read back: {e.etype}"]
         for fn, pyn, kind, ft, fld in self.fields(h):
             if kind == "nested":
                 try:
@@ -179,7 +234,7 @@ class HyWorld:
                 if got[0] is not want[0] or got[1] != want[1]:
                     bad.append(f"{path}.{pyn} views {self.locs(got)} but the field's bytes are at {self.locs(want)}: the attribute no longer reflects the buffer data of {path}")
                     continue
-                bad.extend(self.mirror(d, f"{path}.{pyn}"))
+                bad.extend(self._mirror(d, f"{path}.{pyn}"))
             elif kind == "ref":
                 try:
                     d = I.getattr(h, pyn)
@@ -501,7 +556,13 @@ def _ref_refused(hw, holder, leaf, label):
         out.append(f"{label} is accepted")
     elif _writes(effs) or any(e.kind == "alloc" for e in effs):
         out.append(f"{label} is refused only after {[e.kind for e in effs if e.kind in WRITE_KINDS + ('alloc',)]}")
-    if exc is not None and I.getattr(holder, "r") is not before:
+    def place(v):
+        if v is None:
+            return None
+        x = v.attrs.get("_xobject") if isinstance(v, Obj) and "_xobject" in v.attrs else v
+        return (hw.loc(x)[0].name, repr(hw.loc(x)[1]), v.cls.name if isinstance(v, Obj) and v.cls is not None else None)
+
+    if exc is not None and place(I.getattr(holder, "r")) != place(before):
         out.append(f"{label}: the refused assignment changed holder.r")
     return out
 
@@ -570,6 +631,56 @@ def op_construct_with_nested(hw, st):
     return out
 
 
+def op_ref_null(hw, st):
+    """the reference is cleared: the attribute must be None afterwards, whatever it showed before"""
+    I = hw.I
+    out = []
+    for name in ("holder", "holderB"):
+        h = st[name]
+        I.setattr(h, "r", None)
+        if I.getattr(h, "r") is not None:
+            out.append(f"{name}.r = None: the attribute still shows {I.getattr(h, 'r')!r}")
+        if I.getattr(h.attrs["_xobject"], "r") is not None:
+            out.append(f"{name}.r = None: the stored reference is not null")
+    return out
+
+
+def op_ref_plain_data(hw, st):
+    """plain data assigned to a reference field: a new referent is made in the holder's buffer; the attribute must
+    show that object, not the dressed object assigned before"""
+    I = hw.I
+    h = st["holder"]
+    I.setattr(h, "r", {"x": 2.75})
+    out = []
+    sv = I.getattr(h.attrs["_xobject"], "r")
+    if sv is None:
+        out.append("holder.r = {...}: the stored reference is null")
+    return out
+
+
+def op_assign_raw_struct(hw, st):
+    """a plain struct object (not dressed) of the same size but with its dynamic parts split differently is
+    assigned to a nested field: the dressed part must follow the new layout"""
+    I = hw.I
+    z = st["zoo"]
+    XS = I.getattr(z["DynLeaf"], "_XoStruct")
+    cur_a = hw_len(hw, I.getattr(I.getattr(st["dyn"], "part"), "a"))
+    new_a, new_b = ([4.0, 5.0, 6.0], [7.0]) if cur_a == 1 else ([8.0], [9.0, 10.0, 11.0])
+    raw = I.call(XS, [], {"n": 2.0, "a": new_a, "b": new_b, "_buffer": hw.buf("B")})
+    I.setattr(st["dyn"], "part", raw)
+    out = []
+    part = I.getattr(st["dyn"], "part")
+    for fn, want in (("a", new_a), ("b", new_b)):
+        v = I.getattr(part, fn)
+        if not (isinstance(v, Obj) and v.kind == "nplike") or tuple(v.attrs["shape"]) != (len(want),):
+            out.append(f"dyn.part = <raw struct with a={new_a}, b={new_b}>: dyn.part.{fn} has shape {v.attrs.get('shape') if isinstance(v, Obj) else v!r}, the buffer data have {len(want)} items")
+    return out
+
+
+def hw_len(hw, view):
+    return int(view.attrs["shape"][0]) if isinstance(view, Obj) and view.kind == "nplike" else -1
+
+
 def op_grow(hw, st):
     """buffer A runs out of room and grows: its storage is replaced (every view handed out before is stale)"""
     hw.epoch[hw.buf("A").name] += 1
@@ -616,6 +727,9 @@ def op_state_roundtrip(hw, st):
 
 
 OPS = {
+    "ref-null": op_ref_null,
+    "ref-plain-data": op_ref_plain_data,
+    "assign-raw-struct": op_assign_raw_struct,
     "grow-buffer": op_grow,
     "set-array": op_set_array,
     "state-roundtrip": op_state_roundtrip,
@@ -658,9 +772,11 @@ def run_history(model, hist):
         st["holderB"] = I.call(z["Holder"], [], {"k": 7.5, "_buffer": hw.buf("B")})
         I.setattr(st["holderB"], "r", st["leafB"])
         st["wrap"] = I.call(z["Wrap"], [], {"w": 8.5, "_buffer": hw.buf("A")})
+        st["dyn"] = I.call(z["DynTop"], [], {"t": 9.5, "part": {"n": 1.0, "a": [1.0], "b": [1.0, 2.0, 3.0]}, "_buffer": hw.buf("A")})
+        st["zoo"] = z
 
         def invariants(k, opn):
-            for name in ("top", "mid2", "leaf3", "leafB", "holder", "holderB", "wrap"):
+            for name in ("top", "mid2", "leaf3", "leafB", "holder", "holderB", "wrap", "dyn"):
                 for b in hw.mirror(st[name], name):
                     found.append((k, opn, b))
             for j, c in enumerate(st["old"]):
@@ -699,11 +815,21 @@ def run_history(model, hist):
     return found, None
 
 
-def _worker(args):
-    root, hists = args
+_MODEL_CACHE = {}
+
+
+def _model(root):
     from ..srcmodel import Model
 
-    model = Model(root)
+    if root not in _MODEL_CACHE:
+        _MODEL_CACHE.clear()
+        _MODEL_CACHE[root] = Model(root)
+    return _MODEL_CACHE[root]
+
+
+def _worker(args):
+    root, hists = args
+    model = _model(root)
     out = []
     for h in hists:
         f, err = run_history(model, h)
@@ -734,6 +860,12 @@ def hv(cx):
         m.func(q)
     maxlen = 4 if cx.tier == "thorough" else 2
     hs = list(histories(maxlen))
+    # C18 is decided on every history; for C20 / C09 the quick tier keeps the histories that end in the operation the
+    # property is about (state round trip / copies and by-value assignments), after any first step
+    focus = {"C20": ("state-roundtrip",), "C09": ("copy", "copy-holder", "construct-with-nested", "construct-with-dressed", "assign-foreign", "assign-holder")}.get(cx.prop)
+    if focus and cx.tier != "thorough":
+        hs = [h for h in hs if h[-1] in focus]
+        cx.partial = True
     results = []
     if len(hs) > 60:
         from concurrent.futures import ProcessPoolExecutor
@@ -765,6 +897,8 @@ def hv(cx):
             n_ok += 1
     for o in OPS:
         n_with = sum(1 for h, f, e in results if o in h)
+        if not n_with:
+            continue
         fails = sorted(by_op[o], key=lambda t: (t[0], t[1]))
         if fails:
             ln, h, k, b = fails[0]
@@ -779,6 +913,15 @@ def hv(cx):
 LEAVES = [("t",), ("u",), ("mid", "m"), ("mid", "blatt", "x"), ("mid", "blatt", "why"), ("mid", "blatt", "z"), ("second", "x"), ("second", "why"), ("second", "z")]
 DEFAULTS = {"t": 2.5, "u": 0.0, "m": 0.5, "x": 0.0, "why": 3, "z": 1.25}
 OTHER = {"t": 4.0, "u": 7.5, "m": 8.0, "x": 9.5, "why": 11, "z": 6.25}
+# values that differ from the declared default by a rounding-sized amount only (they are NOT the default)
+NEAR = {"t": 2.5 * (1 + 2e-6), "u": 3e-9, "m": 0.5 + 1e-9, "x": -2e-9, "why": 4, "z": 1.25 * (1 + 1e-6)}
+
+
+# array-valued fields of Top: (python name, kind, declared default, another value)
+ARRAYS = [("grid", "static Float64[2,3]", [[0.0, 0.0, 0.0], [0.0, 0.0, 0.0]], [[1.0, 2.0, 3.0], [4.0, 5.0, 6.0]]),
+          ("vec", "static Float64[3]", [0.0, 0.0, 0.0], [0.0, 0.0, 7.0]),
+          ("dyn", "Float64[:] with default [1, 2]", [1.0, 2.0], [1.0, 2.0, 3.0]),
+          ("dyn0", "Float64[:] without default", None, [5.0])]
 
 
 def _jd_zoo(hw):
@@ -790,15 +933,31 @@ def _jd_zoo(hw):
 
     Leaf = hw.mkclass("Leaf", {"x": F, "y": I.call(Field, [I64], {"default": 3}), "z": I.call(Field, [F], {"default_factory": Builtin("factory", lambda: 1.25)})}, {"_rename": {"y": "why"}})
     Mid = hw.mkclass("Mid", {"m": I.call(Field, [F], {"default": 0.5}), "leaf": Leaf}, {"_rename": {"leaf": "blatt"}})
-    Top = hw.mkclass("Top", {"t": I.call(Field, [F], {"default": 2.5}), "u": F, "mid": Mid, "leaf2": Leaf}, {"_rename": {"leaf2": "second"}})
+    ArrF = hw.lab.array("ArrNFloat64", [None], (0,), F)
+    fields = {"t": I.call(Field, [F], {"default": 2.5}), "u": F, "mid": Mid, "leaf2": Leaf,
+              "grid": hw.lab.array("Arr2x3Float64", [2, 3], (0, 1), F), "vec": hw.lab.array("Arr3Float64", [3], (0,), F),
+              "dyn": I.call(Field, [ArrF], {"default": [1.0, 2.0]}), "dyn0": ArrF}
+    Top = hw.mkclass("Top", fields, {"_rename": {"leaf2": "second"}})
     return Top
 
 
-def run_roundtrip(model, choice):
-    """choice: tuple of booleans per LEAVES entry (True = a value other than the declared default).
-    -> (discrepancies, analysis error or None)"""
+def _nested_list(v):
+    from ..peval import SArr
+
+    if isinstance(v, SArr):
+        if v.ndim == 1:
+            return [v.data.get((i,)) for i in range(v.shape[0])]
+        return [[v.data.get((i, j)) for j in range(v.shape[1])] for i in range(v.shape[0])]
+    return v
+
+
+def run_roundtrip(model, choice, achoice=None):
+    """choice: tuple of booleans per LEAVES entry (True = a value other than the declared default); achoice: the same
+    per ARRAYS entry.  -> (discrepancies, analysis error or None)"""
     hw = HyWorld(model)
     I = hw.I
+    hw.numeric_views = True
+    achoice = achoice if achoice is not None else tuple([False] * len(ARRAYS))
     hw.W.copy_bytes = True
     I.modglobals.setdefault("typeutils", {})["context_default"] = Obj("context", {}, name="ctx:default")
     found = []
@@ -810,13 +969,26 @@ def run_roundtrip(model, choice):
 
     def thunk():
         Top = _jd_zoo(hw)
-        top = I.call(Top, [], {"_buffer": hw.buf("A")})
+        akw, awant = {}, {}
+        for (nm, kind, dflt, other), oth in zip(ARRAYS, achoice):
+            val = other if oth else dflt
+            if val is None:
+                val = []  # no declared default: an empty array
+            awant[nm] = val
+            if oth or dflt is None:
+                akw[nm] = [list(r) for r in val] if val and isinstance(val[0], list) else list(val)
+        top = I.call(Top, [], dict(akw, _buffer=hw.buf("A")))
         want = {}
         for leaf, other in zip(LEAVES, choice):
-            v = (OTHER if other else DEFAULTS)[leaf[-1]]
+            v = (NEAR if other == 2 else OTHER if other else DEFAULTS)[leaf[-1]]
             want[leaf] = v
             I.setattr(walk(top, leaf), leaf[-1], v)
-        d = I.call(I.getattr(top, "to_dict"), [], {})
+        try:
+            d = I.call(I.getattr(top, "to_dict"), [], {})
+        except PyExc as e:
+            held = {a[0]: awant[a[0]] for a in ARRAYS}
+            found.append(f"to_dict: array field grid / dyn / dyn0 : to_dict() raises {e.etype}: {e.msg} (array fields hold {held})")
+            return
         # elision: a scalar is in the dictionary iff it differs from its declared default
         for leaf, other in zip(LEAVES, choice):
             dd = d
@@ -829,12 +1001,23 @@ def run_roundtrip(model, choice):
                 found.append(f"to_dict: {'.'.join(leaf)} = {want[leaf]!r} (declared default {DEFAULTS[leaf[-1]]!r}) is stored as {dd.get(leaf[-1], '<absent>')!r}")
             if not other and leaf[-1] in dd:
                 found.append(f"to_dict: {'.'.join(leaf)} equals its declared default {DEFAULTS[leaf[-1]]!r} but is stored ({dd[leaf[-1]]!r})")
+        for (nm, kind, dflt, other), oth in zip(ARRAYS, achoice):
+            stored = nm in d
+            is_default = dflt is not None and not oth
+            if stored == is_default:
+                found.append(f"to_dict: array field {nm} ({kind}) holds {awant[nm]} and is {'stored although it equals its declared default' if stored else 'left out although it differs from its declared default (or has none)'}")
+            elif stored and _nested_list(d[nm]) != awant[nm]:
+                found.append(f"to_dict: array field {nm} is stored as {_nested_list(d[nm])!r}, it holds {awant[nm]!r}")
         # the source must be untouched by to_dict
         for leaf in LEAVES:
             got = I.getattr(walk(top, leaf), leaf[-1])
             if got != want[leaf]:
                 found.append(f"to_dict changed the object: {'.'.join(leaf)} reads {got!r}, was {want[leaf]!r}")
-        re = I.call(I.getattr(Top, "from_dict"), [d], {"_buffer": hw.buf("B")})
+        try:
+            re = I.call(I.getattr(Top, "from_dict"), [d], {"_buffer": hw.buf("B")})
+        except PyExc as e:
+            found.append(f"from_dict(to_dict()) raises {e.etype}: {e.msg} (dictionary {d!r})")
+            return
         if not (isinstance(re, Obj) and re.cls is Top):
             found.append(f"from_dict gives {re!r}")
             return
@@ -842,7 +1025,10 @@ def run_roundtrip(model, choice):
             got = I.getattr(walk(re, leaf), leaf[-1])
             if got != want[leaf]:
                 found.append(f"from_dict(to_dict()): {'.'.join(leaf)} is {got!r} in the rebuilt object, {want[leaf]!r} in the original (dictionary: {d!r})")
-        found.extend(hw.mirror(re, "rebuilt"))
+        for nm, val in awant.items():
+            got = _nested_list(I.getattr(re, nm))
+            if got != val:
+                found.append(f"from_dict(to_dict()): array field {nm} is {got!r} in the rebuilt object, {val!r} in the original (dictionary entry: {_nested_list(d.get(nm, '<absent>'))!r})")
 
     try:
         res = I.explore(thunk, max_paths=4)
@@ -857,21 +1043,24 @@ def run_roundtrip(model, choice):
 
 def _rt_worker(args):
     root, choices = args
-    from ..srcmodel import Model
-
-    model = Model(root)
-    return [(c,) + run_roundtrip(model, c) for c in choices]
+    model = _model(root)
+    return [(c,) + run_roundtrip(model, c[0], c[1]) for c in choices]
 
 
 def roundtrip_choices(tier):
-    n = len(LEAVES)
+    n, na = len(LEAVES), len(ARRAYS)
+    allA = list(itertools.product((False, True), repeat=na))
     if tier == "thorough":
-        return list(itertools.product((False, True), repeat=n))
+        sc = list(itertools.product((False, True), repeat=n)) + [tuple(2 if (m_ >> i) & 1 else 0 for i in range(n)) for m_ in range(1, 1 << n)]
+        return [(c, allA[k % len(allA)]) for k, c in enumerate(sc)] + [(tuple([False] * n), a) for a in allA] + [(tuple([True] * n), a) for a in allA]
     out = [tuple([False] * n), tuple([True] * n)]
     for k in range(n):
         out.append(tuple(i == k for i in range(n)))
         out.append(tuple(i != k for i in range(n)))
-    return out
+    res = [(c, allA[k % len(allA)]) for k, c in enumerate(out)]
+    res += [(tuple([False] * n), a) for a in allA]
+    res += [(tuple([2] * n), allA[0])] + [(tuple(2 if i == k else 0 for i in range(n)), allA[0]) for k in range(n)]
+    return res
 
 
 @rule("JD", ["C19"], "hybrid from_dict(to_dict()) rebuilds every field value (nested, renamed, default / default-factory fields), defaults elided")
@@ -898,11 +1087,22 @@ def jd(cx):
         cx.recog(False, None, f"JD: {len(errs)} value assignments cannot be evaluated, first {errs[0][0]}: {errs[0][1]}")
     # one instance per leaf: assignments in which that leaf is the (first) one reported
     per = {leaf: [] for leaf in LEAVES}
+    aper = {a[0]: [] for a in ARRAYS}
     other_fail = []
-    for c, f, e in results:
+    for (c, ac), f, e in results:
         for b in f[:1]:
+            ahit = [a[0] for a in ARRAYS if f"array field {a[0]} " in b]
             hit = [leaf for leaf in sorted(LEAVES, key=lambda l: -len(".".join(l))) if (" " + ".".join(leaf) + " ") in b]
-            (per[hit[0]] if hit else other_fail).append((sum(c), c, b))
+            if ahit:
+                aper[ahit[0]].append((sum(ac), ac, b))
+            else:
+                (per[hit[0]] if hit else other_fail).append((sum(c), c, b))
+    for nm, kind, dflt, other in ARRAYS:
+        fails = sorted(aper[nm], key=lambda t: (t[0], t[1]))
+        if fails:
+            cx.bad(None, construct=f"Top.{nm} ({kind}); arrays holding another value than their default: {[a[0] for a, o in zip(ARRAYS, fails[0][1]) if o]}", detail=f"{fails[0][2]}  [{len(fails)} of {len(results)} value assignments]", anchor="hybrid_class::HybridClass.to_dict", sub="roundtrip.array")
+        else:
+            cx.ok(None, construct=f"Top.{nm} ({kind}): {len(results)} value assignments", detail="stored iff it differs from its declared default (always when it has none); rebuilt with the original's items", anchor="hybrid_class::HybridClass.to_dict", sub="roundtrip.array")
     for leaf in LEAVES:
         fails = sorted(per[leaf], key=lambda t: (t[0], t[1]))
         name = ".".join(leaf)
